@@ -31,7 +31,7 @@ func (a *AllCollector) Collect(ctx context.Context, aggs search.Aggregations,
 	searcher search.Collectible) (search.DocumentMatchIterator, error) {
 	return &AllIterator{
 		ctx:           ctx,
-		neededFields:  aggs.Fields(),
+		neededFields:  uniqueFields(aggs.Fields()),
 		bucket:        search.NewBucket("", aggs),
 		searcher:      searcher,
 		searchContext: search.NewSearchContext(searcher.DocumentMatchPoolSize(), 0),
